@@ -36,6 +36,7 @@ type Base struct {
 	byKind  map[string][]int
 	kinds   []string
 	wkinds  []string
+	ptrs    []ptrField
 }
 
 func repoRoot() string {
@@ -259,6 +260,7 @@ func (b *Base) index() {
 	}
 	sort.Strings(b.kinds)
 	b.buildWeighted()
+	b.buildPointers()
 }
 
 // structAt names the structure a file offset belongs to (innermost: the last structure starting at or before the
